@@ -10,7 +10,7 @@ import shutil
 
 from . import lib
 
-PRELUDE = ("From Coq Require Import List Arith Bool.\n"
+PRELUDE = ("From Coq Require Import List Arith Bool ZArith.\n"
            "From AV Require Import UF.UfBase.\nFrom AV Require Import UF.TrUfModel.\n"
            "From AV Require Import Byods.TrUfProvModel.\nImport ListNotations.\n")
 
